@@ -1,4 +1,7 @@
 import WfProofs.ValidateSpec
+import WfProofs.ValidateExt
+import WfProofs.ValidatePerm
+import WfProofs.ValidateRoutes
 /-!
 # C23 — workflow validation accepts exactly the well-formed graphs
 
@@ -272,3 +275,401 @@ theorem C23_subclass_is_closure (H : Hier) (hwf : H.wf = true) (c d : Cls) :
   isSub_iff_subClass hwf c d
 
 example : exH.wf = true ∧ IsA exH 10 0 ∧ ¬IsA exH 10 1 ∧ IsA exH 11 1 := by decide
+
+/-! ## Extension: offender sets, the reach of `skip_graph_checks`, the terminal-event check -/
+
+/-- The names a graph error carries are exactly the offenders, member by member (not only "the list is empty iff
+the clause holds"): the unreachable steps are the steps, not exempted for the workflow or by their own
+`skip_graph_checks`, that no entry point reaches; the dangling events are the event types of the graph that no step
+consumes and that are neither StopEvent nor InputRequiredEvent types; the dead ends are the steps returning some
+event, not exempted, from which no output event can be reached. -/
+theorem C23_graph_offenders_exact (H : Hier) (W : List Step) (skip : List Nat) (hnd : (names W).Nodup) (g : GraphErrs)
+    (h : validateWorkflow H W skip = .error (.graph g)) :
+    (∀ n, n ∈ g.unreach ↔ ckReach ∉ skip ∧ ∃ s ∈ W, s.name = n ∧ ckReach ∉ s.skip ∧
+        ¬∃ seed, InputSeed H W seed ∧ Reach (Edge W) seed (.step n)) ∧
+    (∀ c, c ∈ g.dangling ↔ ckTerminal ∉ skip ∧ EventType W c ∧ ¬Consumed W c ∧ ¬IsA H c cStop ∧ ¬IsA H c cInputRequired) ∧
+    (∀ n, n ∈ g.deadEnd ↔ ckDeadEnd ∉ skip ∧ ∃ s ∈ W, s.name = n ∧ (∃ c ∈ s.returns, c ≠ cNone) ∧ ckDeadEnd ∉ s.skip ∧
+        ¬∃ o, Output H W o ∧ Reach (Edge W) (.step n) (.ev o)) := by
+  rw [validateWorkflow_split] at h
+  cases hp : preGraph H W with
+  | error e =>
+    rw [hp] at h; simp only at h
+    injection h with h; subst h
+    exact absurd hp preGraph_not_graph
+  | ok start =>
+    have hs := preGraph_start hp
+    rw [hp] at h
+    simp only at h
+    have hg : g = validateGraph H W start skip := by
+      by_cases hn : (validateGraph H W start skip).none = true
+      · simp [hn] at h
+      · simp only [hn, Bool.false_eq_true, if_false] at h
+        injection h with h; injection h with h; exact h.symm
+    subst hg
+    refine ⟨fun n => ?_, fun c => ?_, fun n => ?_⟩
+    · simp only [validateGraph, mem_skip_ite, mem_unreachable hnd, C23_forward_reachable H W start hs]
+    · simp only [validateGraph, mem_skip_ite, mem_dangling, ← eventType_iff, not_or]
+      rfl
+    · simp only [validateGraph, mem_skip_ite, mem_deadEnds hnd, C23_reverse_reachable H W]
+
+/-- non-vacuity: `exBad` is rejected with exactly step 5 unreachable and a dead end, nothing dangling -/
+example : ∃ g, validateWorkflow exH exBad [] = .error (.graph g) ∧ 5 ∈ g.unreach ∧ 1 ∉ g.unreach ∧ 5 ∈ g.deadEnd :=
+  ⟨{ unreach := [5], dangling := [], deadEnd := [5] }, by decide, by decide, by decide, by decide⟩
+
+/-- Only the graph checks read `skip_graph_checks`: every error other than a graph error is reported for one skip set
+iff it is reported for any other, and whenever two skip sets both accept, the flag is the same. -/
+theorem C23_skip_only_affects_graph_checks (H : Hier) (W : List Step) (skip skip' : List Nat) :
+    (∀ e, (∀ g, e ≠ .graph g) → (validateWorkflow H W skip = .error e ↔ validateWorkflow H W skip' = .error e)) ∧
+    (∀ b b', validateWorkflow H W skip = .ok b → validateWorkflow H W skip' = .ok b' → b = b') := by
+  have key : ∀ (k k' : List Nat) (e : Err), (∀ g, e ≠ .graph g) → validateWorkflow H W k = .error e →
+      validateWorkflow H W k' = .error e := by
+    intro k k' e hne h
+    rw [validateWorkflow_split] at h ⊢
+    cases hp : preGraph H W with
+    | error e' => rw [hp] at h; exact h
+    | ok start =>
+      rw [hp] at h
+      simp only at h
+      by_cases hn : (validateGraph H W start k).none = true
+      · simp [hn] at h
+      · simp only [hn, Bool.false_eq_true, if_false] at h
+        injection h with h
+        exact absurd h.symm (hne _)
+  refine ⟨fun e hne => ⟨key skip skip' e hne, key skip' skip e hne⟩, ?_⟩
+  intro b b' h h'
+  rw [validateWorkflow_split] at h h'
+  cases hp : preGraph H W with
+  | error e => rw [hp] at h; cases h
+  | ok start =>
+    rw [hp] at h h'
+    simp only at h h'
+    by_cases hn : (validateGraph H W start skip).none = true
+    · by_cases hn' : (validateGraph H W start skip').none = true
+      · simp only [hn, hn', if_true] at h h'
+        injection h with h; injection h' with h'
+        rw [← h, ← h']
+      · simp [hn'] at h'
+    · simp [hn] at h
+
+example : validateWorkflow exH exBad [] ≠ validateWorkflow exH exBad [ckReach, ckDeadEnd] ∧
+    validateWorkflow exH ({ name := 9, accepted := [11, 2], returns := [] } :: exBad) [ckReach, ckDeadEnd] = .error .multiStart := by
+  decide
+
+/-- Skipping more never rejects: a step set accepted under a skip set is accepted, with the same flag, under every
+larger one. -/
+theorem C23_skip_monotone (H : Hier) (W : List Step) (skip skip' : List Nat) (hsub : ∀ c ∈ skip, c ∈ skip') (b : Bool)
+    (h : validateWorkflow H W skip = .ok b) : validateWorkflow H W skip' = .ok b := by
+  rw [validateWorkflow_split] at h ⊢
+  cases hp : preGraph H W with
+  | error e => rw [hp] at h; cases h
+  | ok start =>
+    rw [hp] at h
+    simp only at h ⊢
+    by_cases hn : (validateGraph H W start skip).none = true
+    · rw [validateGraph_none_mono hsub hn]
+      simpa [hn] using h
+    · simp [hn] at h
+
+example : validateWorkflow exH exBad [ckReach, ckDeadEnd] = .ok false ∧
+    validateWorkflow exH exBad [ckDeadEnd, ckTerminal, ckReach] = .ok false := by decide
+
+/-- With all three checks skipped for the workflow, validation accepts iff the clauses that cannot be skipped hold:
+a non-empty step set with one start and one stop type, no StopEvent consumer, event connectivity both ways and a
+consistent handler table. -/
+theorem C23_all_skipped (H : Hier) (W : List Step) (skip : List Nat) (hnd : (names W).Nodup)
+    (h0 : ckReach ∈ skip) (h1 : ckTerminal ∈ skip) (h2 : ckDeadEnd ∈ skip) :
+    (∃ b, validateWorkflow H W skip = .ok b) ↔ Pre5 H W ∧ HandlersOK W := by
+  rw [C23_accepts_iff_wellformed H W skip hnd]
+  constructor
+  · intro wf
+    exact ⟨⟨⟨wf.nonempty, wf.start, wf.stop⟩, wf.noStopConsumer, wf.consumedProduced, wf.producedConsumed⟩, wf.handlers⟩
+  · rintro ⟨⟨⟨a, b, c⟩, d, e, f⟩, g⟩
+    exact ⟨a, b, c, d, e, f, g, Or.inl h0, Or.inl h1, Or.inl h2⟩
+
+example : Pre5 exH exBad ∧ HandlersOK exBad :=
+  (C23_all_skipped exH exBad [0, 1, 2] (by decide) (by decide) (by decide) (by decide)).mp ⟨false, by decide⟩
+
+/-- What is left for the terminal-event check.  Event connectivity is checked first and already demands that every
+produced type be consumed unless it is an InputRequiredEvent, HumanResponseEvent or StopEvent type; so whenever a graph
+error is reported, every event it lists as dangling is a HumanResponseEvent type that some step returns and no step
+consumes. -/
+theorem C23_dangling_only_human_response (H : Hier) (W : List Step) (skip : List Nat) (hnd : (names W).Nodup)
+    (g : GraphErrs) (h : validateWorkflow H W skip = .error (.graph g)) :
+    ∀ c ∈ g.dangling, IsA H c cHumanResponse ∧ (Returned W c ∧ c ≠ cNone) ∧ ¬Consumed W c := by
+  intro c hc
+  obtain ⟨⟨_, _, _, hpc⟩, _⟩ := C23_error_is_first_failure H W skip hnd _ h
+  obtain ⟨_, het, hnc, hns, hni⟩ := ((C23_graph_offenders_exact H W skip hnd g h).2.1 c).mp hc
+  have hret : Returned W c ∧ c ≠ cNone := by
+    rcases het with h | h
+    · exact absurd h hnc
+    · exact h
+  refine ⟨?_, hret, hnc⟩
+  rcases hpc c (Or.inl hret) with h | h | h | h
+  · exact absurd h hnc
+  · exact absurd h hni
+  · exact h
+  · exact absurd h hns
+
+/-- ... and such a type is always found: a step set in which some step returns an event type that no step consumes and
+that is neither a StopEvent nor an InputRequiredEvent type is rejected unless the terminal-event check is skipped. -/
+theorem C23_unconsumed_return_rejected (H : Hier) (W : List Step) (skip : List Nat) (hnd : (names W).Nodup) (c : Cls)
+    (hr : Returned W c) (hn : c ≠ cNone) (hc : ¬Consumed W c) (hs : ¬IsA H c cStop) (hi : ¬IsA H c cInputRequired)
+    (hk : ckTerminal ∉ skip) : ∀ b, validateWorkflow H W skip ≠ .ok b := by
+  intro b hb
+  have wf := (C23_accepts_iff_wellformed H W skip hnd).mp ⟨b, hb⟩
+  rcases wf.terminal with h | h
+  · exact hk h
+  · rcases h c (Or.inr ⟨hr, hn⟩) with h | h | h
+    · exact hc h
+    · exact hs h
+    · exact hi h
+
+/-- non-vacuity: a returned and unconsumed HumanResponseEvent subclass (`8`) passes event connectivity and is what the
+terminal-event check reports -/
+example :
+    let W : List Step := [{ name := 1, accepted := [1], returns := [2, 8] }]
+    validateWorkflow exH W [] = .error (.graph { unreach := [], dangling := [8], deadEnd := [] }) ∧
+    validateWorkflow exH W [ckTerminal] = .ok false := by decide
+
+/-! ## Extension: the order of the steps does not matter -/
+
+/-- The verdict does not depend on the order of the `steps` dict: for every reordering of the step list, validation
+accepts the one iff it accepts the other, with the same flag; and when it rejects, the two errors stand for the same
+clause and carry the same offending steps / events (as sets). -/
+theorem C23_order_independent (H : Hier) (W W' : List Step) (skip : List Nat) (hp : W.Perm W') (hnd : (names W).Nodup) :
+    (∀ b, validateWorkflow H W skip = .ok b ↔ validateWorkflow H W' skip = .ok b) ∧
+    (∀ e e', validateWorkflow H W skip = .error e → validateWorkflow H W' skip = .error e' →
+      e.kind = e'.kind ∧ SameOffenders e e') := by
+  have hnd' : (names W').Nodup := (names_perm hp).nodup_iff.mp hnd
+  have hm : ∀ s, s ∈ W ↔ s ∈ W' := fun s => hp.mem_iff
+  have one : ∀ (V V' : List Step), V.Perm V' → (names V).Nodup → (names V').Nodup → ∀ b,
+      validateWorkflow H V skip = .ok b → validateWorkflow H V' skip = .ok b := by
+    intro V V' hpv hn hn' b hb
+    have wf := (C23_accepts_iff_wellformed H V skip hn).mp ⟨b, hb⟩
+    obtain ⟨b', hb'⟩ := (C23_accepts_iff_wellformed H V' skip hn').mpr (wellFormed_perm hpv skip wf)
+    have h1 := C23_hitl_flag H V skip b hb
+    have h2 := C23_hitl_flag H V' skip b' hb'
+    have : b = b' := by
+      rw [Bool.eq_iff_iff, h1, h2]
+      exact usesHitl_congr fun s => hpv.mem_iff
+    rw [this]; exact hb'
+  refine ⟨fun b => ⟨one W W' hp hnd hnd' b, one W' W hp.symm hnd' hnd b⟩, ?_⟩
+  intro e e' he he'
+  have m := C23_error_is_first_failure H W skip hnd e he
+  have m' := errorMeaning_perm hp.symm skip e' (C23_error_is_first_failure H W' skip hnd' e' he')
+  have hk := errorMeaning_kind_unique m m'
+  refine ⟨hk, ?_⟩
+  cases e <;> cases e' <;> simp only [Err.kind] at hk <;> try (first | rfl | omega)
+  · exact fun n => (m.2.2 n).trans (m'.2.2 n).symm
+  · exact fun n => (m.2.2.2 n).trans (m'.2.2.2 n).symm
+  · exact fun n => (m.2.2.2.2 n).trans (m'.2.2.2.2 n).symm
+  · rename_i g g'
+    have o := C23_graph_offenders_exact H W skip hnd g he
+    have o' := C23_graph_offenders_exact H W' skip hnd' g' he'
+    refine ⟨fun n => ?_, fun n => ?_, fun n => ?_⟩
+    · rw [o.1 n, o'.1 n]
+      simp only [inputSeed_congr hm, reach_congr hm]
+      apply and_congr Iff.rfl
+      constructor <;> rintro ⟨s, hs, r⟩
+      · exact ⟨s, (hm s).mp hs, r⟩
+      · exact ⟨s, (hm s).mpr hs, r⟩
+    · rw [o.2.1 n, o'.2.1 n, eventType_congr hm, consumed_congr hm]
+    · rw [o.2.2 n, o'.2.2 n]
+      simp only [output_congr hm, reach_congr hm]
+      apply and_congr Iff.rfl
+      constructor <;> rintro ⟨s, hs, r⟩
+      · exact ⟨s, (hm s).mp hs, r⟩
+      · exact ⟨s, (hm s).mpr hs, r⟩
+
+/-- non-vacuity: `exW` reversed is accepted with the same flag; `exBad` reversed is rejected with the same offenders -/
+example : exW.reverse.Perm exW ∧ validateWorkflow exH exW.reverse [] = .ok true ∧
+    validateWorkflow exH exBad.reverse [] = .error (.graph { unreach := [5], dangling := [], deadEnd := [5] }) :=
+  ⟨List.reverse_perm _, by decide, by decide⟩
+
+/-! ## Extension: everything `_validate_workflow` returns -/
+
+open ValidateCache in
+/-- The whole result record, not only the flag: whenever `_validate_workflow` returns, the start (stop) class it
+reports is the one StartEvent type consumed (StopEvent type returned) by the step set; the handler descriptors are
+those of the `@catch_error` steps, in step order; and the routing table `handler_for_step` contains `(n, h)` iff
+handler `h` lists step `n` in its `for_steps`, or nobody lists `n`, `n` is a declared step that is not a handler, and
+`h` is the wildcard handler.  The table is a function and never routes a handler's own failure to a handler. -/
+theorem C23_result_record (H : Hier) (W : List Step) (skip : List Nat) (hnd : (names W).Nodup) (r : Result)
+    (h : validateFull H W skip = .ok r) :
+    validateWorkflow H W skip = .ok r.hitl ∧
+    (StartType H W r.start ∧ ∀ d, StartType H W d → d = r.start) ∧
+    (StopType H W r.stop ∧ ∀ d, StopType H W d → d = r.stop) ∧
+    (r.hitl = true ↔ UsesHitl H W) ∧
+    r.handlers = (W.filter (·.handler)).map (fun s => { name := s.name, forSteps := s.forSteps, maxRec := s.maxRec }) ∧
+    (∀ n h, (n, h) ∈ r.routes ↔ Routes W n h) ∧
+    (∀ n h h', (n, h) ∈ r.routes → (n, h') ∈ r.routes → h = h') ∧
+    (∀ n h, (n, h) ∈ r.routes → (∃ s ∈ W, s.name = n ∧ s.handler = false) ∧ ∃ d ∈ W, d.name = h ∧ d.handler = true) := by
+  obtain ⟨hw, hs, ht, hh, hr⟩ := validateFull_ok h
+  obtain ⟨_, _, _, _, _, _, _, hv, _, _⟩ := validateWorkflow_ok_iff.mp hw
+  have hsp := ensureStart_ok.mp hs
+  have htp := ensureStop_ok.mp ht
+  have hroutes : ∀ n h, (n, h) ∈ r.routes ↔ Routes W n h := fun n h => by rw [hr]; exact mem_routesOf hnd hv n h
+  refine ⟨hw, ⟨hsp.1, fun d hd => hsp.2 d hd.1 hd.2⟩, ⟨htp.1, fun d hd => htp.2 d hd.1 hd.2⟩,
+    C23_hitl_flag H W skip r.hitl hw, hh, hroutes, ?_, ?_⟩
+  · intro n a b ha hb
+    rw [hr, mem_routesOf_raw] at ha hb
+    have := ha.2.symm.trans hb.2
+    injection this
+  · intro n a ha
+    have hok := (handlersOK_iff hnd).mpr hv
+    rcases (hroutes n a).mp ha with ⟨d, hd, hdh, hn, ts, hts, hmem⟩ | ⟨hs', _, d, hd, hdh, _, hn⟩
+    · exact ⟨hok.targets d hd hdh ts hts n hmem, d, hd, hn, hdh⟩
+    · exact ⟨hs', d, hd, hn, hdh⟩
+
+open ValidateCache in
+/-- `_validate_workflow` returns a record iff the step set is well formed, and raises the same error as the model of
+the flag-only view otherwise (the two transcriptions of the pipeline agree) -/
+theorem C23_result_iff_wellformed (H : Hier) (W : List Step) (skip : List Nat) (hnd : (names W).Nodup) :
+    ((∃ r, validateFull H W skip = .ok r) ↔ WellFormed H W skip) ∧
+    (∀ e, validateFull H W skip = .error e ↔ validateWorkflow H W skip = .error e) := by
+  refine ⟨?_, fun e => ⟨validateFull_error, validateFull_of_error⟩⟩
+  rw [← C23_accepts_iff_wellformed H W skip hnd]
+  constructor
+  · rintro ⟨r, hr⟩; exact ⟨r.hitl, (validateFull_ok hr).1⟩
+  · rintro ⟨b, hb⟩
+    obtain ⟨r, hr, _⟩ := validateFull_of_ok hb
+    exact ⟨r, hr⟩
+
+open ValidateCache in
+/-- non-vacuity: the record of `exW` — start class 11, stop class 2, one scoped handler (step 3 owns step 1) -/
+example : validateFull exH exW [] =
+    .ok ⟨11, 2, [{ name := 3, forSteps := some [1], maxRec := 2 }], [(1, 3)], true⟩ := by decide
+
+/-! ## Extension: the life of a verdict — `add_step`, `validate()`, and the cached `_validate()` of `run()` -/
+
+/-- `Workflow._validate`, `add_step`, `validate`, `run` and `__init__` still have the shape the session model
+transcribes: the two early returns of `_validate` and their guards, how staleness is computed, that every assignment
+to the instance follows the `_validate_workflow` call and which attributes are assigned, what is stored as validated version and
+result, that `add_step` stores the function and bumps the class version by a positive constant, that `validate()`
+forces and `run()` does not.  Regenerated from `/repo` on every run. -/
+theorem C23_cache_source_shape :
+    Gen.C23c.classVersionInit = "0" ∧ Gen.C23c.metaFreshStepDict = true ∧
+    Gen.C23c.versionBump = 1 ∧ Gen.C23c.versionBumpTarget = "cls._step_functions_version" ∧
+    Gen.C23c.addStepStores = ["[func.__name__] = func"] ∧
+    Gen.C23c.addStepDupGuard = ["func.__name__ in cls._get_steps_from_class()"] ∧
+    Gen.C23c.initValidationResult = "None" ∧ Gen.C23c.initValidatedVersion = "-1" ∧
+    Gen.C23c.disabledGuard = ["self._disable_validation", "not force"] ∧ Gen.C23c.disabledReturns = "False" ∧
+    Gen.C23c.staleIsVersionMismatch = true ∧
+    Gen.C23c.cacheGuard = ["not force", "not stale", "self._validation_result is not None"] ∧
+    Gen.C23c.cacheReturns = "self._validation_result" ∧
+    Gen.C23c.assignedByValidate = ["_catch_error_handlers", "_handler_for_step", "_start_event_class", "_stop_event_class",
+      "_validated_version", "_validation_result"] ∧
+    Gen.C23c.assignsOnlyAfterValidateWorkflow = true ∧
+    Gen.C23c.validatedVersionValue = "self.__class__._step_functions_version" ∧
+    Gen.C23c.validationResultValue = "result.uses_hitl" ∧
+    Gen.C23c.validateForces = true ∧ Gen.C23c.runCallsValidate = 1 ∧ Gen.C23c.runForces = false := by decide +kernel
+
+open ValidateCache in
+/-- Step names stay distinct through every history: classes are created with distinct method names and `add_step`
+refuses a name that is already a step, so the hypothesis `(names W).Nodup` of the theorems above holds for the step
+set of every class in every reachable state of a session. -/
+theorem C23_session_names_distinct (H : Hier) (acts : List Act) :
+    ∀ c ∈ (run H {} acts).classes, (names c.steps).Nodup :=
+  (inv_run acts (inv_init H)).names
+
+open ValidateCache in
+/-- **A cached verdict is never stale.**  For every history of class definitions, `add_step` calls (on any class of
+the chain, before or after instances exist), instance constructions, `validate()` and `run()`-time `_validate()`
+calls: in the state reached, what `_validate()` answers for an instance with validation enabled - from its cache or
+not - is what a fresh `_validate_workflow` on the current steps of its class answers (the flag, or the error); and so
+does `validate()`. -/
+theorem C23_cached_verdict_is_fresh (H : Hier) (acts : List Act) (i : Nat) (x : Inst) (c : ClassSt)
+    (hi : (run H {} acts).insts[i]? = some x) (hc : (run H {} acts).classes[x.cls]? = some c) (hd : x.disabled = false) :
+    (step H (run H {} acts) (.runValidate i)).2 = respOf (validateFull H c.steps x.skip) ∧
+    (step H (run H {} acts) (.validate i)).2 = respOf (validateFull H c.steps x.skip) := by
+  have hinv := inv_run acts (inv_init H)
+  have hf : Gen.C23c.validateForces = true := by decide
+  have hr : Gen.C23c.runForces = false := by decide
+  simp only [step, hf, hr]
+  exact ⟨validateAt_cached hinv hi hc hd, validateAt_force hi hc⟩
+
+open ValidateCache in
+/-- ... hence the main theorem holds along every history: in every reachable state, `run()`-time validation of an
+enabled instance passes iff the current step set of its class is well formed under the instance's skip set, and the
+flag it hands back is true iff an InputRequiredEvent type is produced or a HumanResponseEvent type is consumed. -/
+theorem C23_session_accepts_iff_wellformed (H : Hier) (acts : List Act) (i : Nat) (x : Inst) (c : ClassSt)
+    (hi : (run H {} acts).insts[i]? = some x) (hc : (run H {} acts).classes[x.cls]? = some c) (hd : x.disabled = false) :
+    ((∃ b, (step H (run H {} acts) (.runValidate i)).2 = .flag b) ↔ WellFormed H c.steps x.skip) ∧
+    (∀ b, (step H (run H {} acts) (.runValidate i)).2 = .flag b → (b = true ↔ UsesHitl H c.steps)) := by
+  have hnd := C23_session_names_distinct H acts c (List.mem_of_getElem? hc)
+  rw [(C23_cached_verdict_is_fresh H acts i x c hi hc hd).1, respOf_validateFull]
+  rw [← C23_accepts_iff_wellformed H c.steps x.skip hnd]
+  cases hv : validateWorkflow H c.steps x.skip with
+  | ok b =>
+    refine ⟨⟨fun _ => ⟨b, rfl⟩, fun _ => ⟨b, rfl⟩⟩, fun b' hb' => ?_⟩
+    injection hb' with hb'; subst hb'
+    exact C23_hitl_flag H c.steps x.skip b hv
+  | error e =>
+    refine ⟨⟨fun ⟨b, hb⟩ => (by cases hb), fun ⟨b, hb⟩ => (by cases hb)⟩, fun b' hb' => (by cases hb')⟩
+
+open ValidateCache in
+/-- What the engine reads afterwards is fresh too: after any `validate()` or `_validate()` call that returned a flag,
+the instance's start / stop classes, handler descriptors and routing table are those of a fresh `_validate_workflow`
+on the current steps of its class, its stored result is the flag, its validated version is the version its class
+sees; classes are untouched. -/
+theorem C23_validated_instance_is_fresh (H : Hier) (acts : List Act) (i : Nat) (x : Inst) (c : ClassSt) (forced : Bool)
+    (hi : (run H {} acts).insts[i]? = some x) (hc : (run H {} acts).classes[x.cls]? = some c)
+    (hd : x.disabled = false ∨ forced = true) (b : Bool)
+    (hb : (step H (run H {} acts) (if forced then .validate i else .runValidate i)).2 = .flag b) :
+    let S' := (step H (run H {} acts) (if forced then .validate i else .runValidate i)).1
+    S'.classes = (run H {} acts).classes ∧
+    ∃ x' r, S'.insts[i]? = some x' ∧ validateFull H c.steps x.skip = .ok r ∧ r.hitl = b ∧
+      x'.start = r.start ∧ x'.stop = r.stop ∧ x'.handlers = r.handlers ∧ x'.routes = r.routes ∧
+      x'.result = some b ∧ x'.vver = some (vis (run H {} acts) x.cls) := by
+  have hinv := inv_run acts (inv_init H)
+  have hf : Gen.C23c.validateForces = true := by decide
+  have hr : Gen.C23c.runForces = false := by decide
+  cases forced with
+  | true =>
+    simp only [if_true, step, hf] at hb ⊢
+    obtain ⟨h1, x', r, h2, h3, h4, h5, h6, h7, h8, h9, h10, _⟩ := validateAt_state hinv true hi hc (Or.inr rfl) hb
+    exact ⟨h1, x', r, h2, h3, h4, h5, h6, h7, h8, h9, h10⟩
+  | false =>
+    simp only [Bool.false_eq_true, if_false, step, hr] at hb ⊢
+    have hd' : x.disabled = false := by
+      rcases hd with h | h
+      · exact h
+      · cases h
+    obtain ⟨h1, x', r, h2, h3, h4, h5, h6, h7, h8, h9, h10, _⟩ := validateAt_state hinv false hi hc (Or.inl hd') hb
+    exact ⟨h1, x', r, h2, h3, h4, h5, h6, h7, h8, h9, h10⟩
+
+open ValidateCache in
+/-- An instance built with `disable_validation=True`, asked by `run()`: answers `False` without validating and without
+touching its state - in particular its routing table stays as it was (empty until an explicit `validate()`). -/
+theorem C23_disabled_instance_skips_validation (H : Hier) (S : State) (i : Nat) (x : Inst) (c : ClassSt)
+    (hi : S.insts[i]? = some x) (hc : S.classes[x.cls]? = some c) (hd : x.disabled = true) :
+    step H S (.runValidate i) = (S, .flag false) := by
+  have hr : Gen.C23c.runForces = false := by decide
+  simp only [step, hr]
+  exact validateAt_disabled hi hc hd
+
+namespace C23
+open ValidateCache
+/-- a session: class 0 with one step `1 → 2`; an instance; `validate()`; then `add_step` of a step consuming the
+never-produced type 9; a subclass (class 1) with an instance created before a later `add_step` on the *parent* -/
+def exActs : List Act :=
+  [ .newClass [{ name := 1, accepted := [1], returns := [2] }],
+    .construct 0 [] false,
+    .validate 0,
+    .newClass [{ name := 1, accepted := [1], returns := [2] }],
+    .construct 1 [] false,
+    .runValidate 1,
+    .addStep 0 { name := 2, accepted := [9], returns := [2] } ]
+end C23
+
+open ValidateCache in
+/-- non-vacuity: after the history `exActs` instance 0 holds a cached `False` from before the `add_step`, and
+`_validate()` does not serve it: it reports the consumed-but-never-produced type.  Instance 1 (of the subclass, whose
+own steps did not change) sees the parent's bumped version, re-validates and is accepted again. -/
+example :
+    let S := run exH {} exActs
+    (S.insts[0]?.map (·.result)) = some (some false) ∧ vis S 0 = 1 ∧ vis S 1 = 1 ∧
+    (step exH S (.runValidate 0)).2 = .err (.consumedNotProduced [9]) ∧
+    (step exH S (.runValidate 1)).2 = .flag false ∧
+    (S.insts[1]?.map (·.vver)) = some (some 0) ∧
+    ((step exH S (.runValidate 1)).1.insts[1]?.map (·.vver)) = some (some 1) := by decide +kernel
